@@ -226,8 +226,17 @@ func init() {
 			}
 			return nil
 		},
+		// sync.Pool keeps what is Put and hands it out again, most recent
+		// first (one of the behaviours the runtime may show, and the usual
+		// one on one P); an empty pool calls New.
 		"(*sync.Pool).Get": func(fr *frame, a []value) value {
 			p := a[0].(*value)
+			tab, _ := fr.i.side["syncpool"].(map[*value][]value)
+			if items := tab[p]; len(items) > 0 {
+				v := items[len(items)-1]
+				tab[p] = items[:len(items)-1]
+				return v
+			}
 			st := (*p).(structure)
 			newf := st[len(st)-1]
 			if isNilRef(newf) {
@@ -235,7 +244,19 @@ func init() {
 			}
 			return call(fr.i, fr, fr.callpos, newf, nil)
 		},
-		"(*sync.Pool).Put": nop,
+		"(*sync.Pool).Put": func(fr *frame, a []value) value {
+			p := a[0].(*value)
+			tab, _ := fr.i.side["syncpool"].(map[*value][]value)
+			if tab == nil {
+				tab = map[*value][]value{}
+				fr.i.side["syncpool"] = tab
+			}
+			if x, ok := a[1].(iface); ok && x.t == nil {
+				return nil
+			}
+			tab[p] = append(tab[p], a[1])
+			return nil
+		},
 
 		// ---- sync/atomic ----------------------------------------------
 		"sync/atomic.LoadInt32":   atomicLoad,
